@@ -287,6 +287,16 @@ func (db *DB) PutBytes(keyBytes, valBytes []byte) error {
 			return ErrAlreadyClosed
 		}
 
+		// a full memstore is handed to the flusher before this mutation is logged and applied: when the rotation fails,
+		// the call fails without having had any effect (failing after the mutation was applied would return an error
+		// for a write that is in the WAL and readable)
+		if db.memStore.EstimatedSizeInBytes() > db.memstoreMaxSize {
+			err = db.rotateWalAndFlushMemstore()
+			if err != nil {
+				return err
+			}
+		}
+
 		if db.enableAsyncWAL {
 			err = db.wal.Append(walBytes)
 			if err != nil {
@@ -299,15 +309,7 @@ func (db *DB) PutBytes(keyBytes, valBytes []byte) error {
 			}
 		}
 
-		err = db.memStore.Upsert(keyBytes, valBytes)
-		if err != nil {
-			return err
-		}
-
-		if db.memStore.EstimatedSizeInBytes() > db.memstoreMaxSize {
-			return db.rotateWalAndFlushMemstore()
-		}
-		return nil
+		return db.memStore.Upsert(keyBytes, valBytes)
 	}()
 }
 
